@@ -24,6 +24,8 @@ import (
 	"net/http/httptest"
 	"net/url"
 	"os"
+	"regexp"
+	"sort"
 	"strconv"
 	"strings"
 	"sync"
@@ -68,7 +70,73 @@ func (r *rec) take() []string {
 }
 
 var bigComplexity = false // the TraceQL complexity statement answers 25e6 (portioned processing)
-var schemaNew = true      // answers of the two dbVersion statements: current schema (tempo_v2, v5) or an old one
+var portionRe = regexp.MustCompile(`cityHash64\(trace_id\) % \d+\) == \((\d+)\)`)
+
+// GenPortions: a portioned TraceQL search whose portions RETURN rows: the complexity estimate the database answers, the
+// limit of the request and, per portion, the start times (ns) of the traces its search statement returns (newest first)
+type GenPortions struct {
+	Complexity int64     `json:"complexity"`
+	Limit      int       `json:"limit"`
+	Rows       [][]int64 `json:"rows"`
+}
+
+var curPort *GenPortions
+
+// genPortions simulates a store: every portion holds some traces of the window; a portion returns the `limit` newest of
+// (what the previous portion kept, re-read by id) and (its own traces inside the window it is sent with); once a portion
+// fills the limit the window of the next one starts at the oldest trace kept
+func genPortions(r *rand.Rand, w Window) *GenPortions {
+	from, to := w.FromNs/1e9*1e9, w.ToNs/1e9*1e9
+	n := 2 + r.Intn(3)
+	g := &GenPortions{Complexity: int64(n)*10000000 - int64(r.Intn(1000000)), Limit: []int{1, 2, 3, 5}[r.Intn(4)]}
+	cur := from
+	var kept []int64
+	for k := 0; k < n; k++ {
+		cand := append([]int64{}, kept...)
+		for i, m := 0, r.Intn(g.Limit+2); i < m; i++ {
+			st := cur + r.Int63n(to-cur)
+			switch r.Intn(3) {
+			case 0:
+				st = st / 1e9 * 1e9 // a whole second: time.Time.Nanosecond() == 0
+			case 1:
+				st = st / 1e6 * 1e6
+			}
+			if st < cur {
+				st = cur
+			}
+			cand = append(cand, st)
+		}
+		sort.Slice(cand, func(i, j int) bool { return cand[i] > cand[j] })
+		if len(cand) > g.Limit {
+			cand = cand[:g.Limit]
+		}
+		g.Rows = append(g.Rows, cand)
+		kept = cand
+		if len(cand) == g.Limit {
+			cur = cand[len(cand)-1]
+		}
+	}
+	return g
+}
+
+// needFrom: the latest lower bound portion k may be sent with: the requested From until a portion fills the limit, from
+// then on the oldest trace the last full portion kept
+func (g *GenPortions) needFrom(reqFrom int64, k int) int64 {
+	need := reqFrom
+	for i := 0; i < k && i < len(g.Rows); i++ {
+		if len(g.Rows[i]) == g.Limit && g.Limit > 0 {
+			need = g.Rows[i][len(g.Rows[i])-1]
+			for _, st := range g.Rows[i] {
+				if st < need {
+					need = st
+				}
+			}
+		}
+	}
+	return need
+}
+
+var schemaNew = true // answers of the two dbVersion statements: current schema (tempo_v2, v5) or an old one
 
 type drv struct{}
 type conn struct{}
@@ -106,6 +174,22 @@ func (*conn) QueryContext(ctx context.Context, q string, args []driver.NamedValu
 			return &rowsT{cols: 3, rows: [][]driver.Value{{uint64(17), float64(1), int64(1704888000000)}, {uint64(19), float64(2), int64(1704888015000)}}}, nil
 		}
 		return &rowsT{cols: 3, rows: [][]driver.Value{{uint64(7), float64(1), int64(1704888000000)}, {uint64(9), float64(2), int64(1704888015000)}}}, nil
+	case curPort != nil && strings.Contains(q, "count() as _count"):
+		return &rowsT{cols: 1, rows: [][]driver.Value{{curPort.Complexity}}}, nil
+	case curPort != nil && strings.Contains(q, "traces_info"):
+		// the search statement of one portion: `limit` (or fewer) traces, newest first, as TracesDataPlanner orders them
+		k := 0
+		if m := portionRe.FindStringSubmatch(q); m != nil {
+			k, _ = strconv.Atoi(m[1])
+		}
+		res := &rowsT{cols: 8}
+		if k < len(curPort.Rows) {
+			for i, st := range curPort.Rows[k] {
+				id := fmt.Sprintf("%032x", st)
+				res.rows = append(res.rows, []driver.Value{id, []string{fmt.Sprintf("%016x", i+1)}, []int64{2000000}, []int64{st}, st, float64(2), "svc", "op"})
+			}
+		}
+		return res, nil
 	case bigComplexity && strings.Contains(q, "count() as _count"):
 		// TraceQL complexity estimate: 25e6 rows => the request is processed in 3 portions
 		return &rowsT{cols: 1, rows: [][]driver.Value{{int64(25000000)}}}, nil
@@ -564,6 +648,9 @@ func endpoints() []Endpoint {
 		{Name: "tempo_search_traceql_portions", Api: "traces", Complex: true, Build: func(w Window) (*http.Request, int64, int64) {
 			return get("/api/search", "q", `{.a="b" && duration>1ms}`, "start", sec(w.FromNs), "end", sec(w.ToNs), "limit", "20"), 0, 0
 		}},
+		{Name: "tempo_search_traceql_portions_rows", Api: "traces", Build: func(w Window) (*http.Request, int64, int64) {
+			return get("/api/search", "q", `{.a="b" && duration>1ms}`, "start", sec(w.FromNs), "end", sec(w.ToNs), "limit", fmt.Sprint(curPort.Limit)), 0, 0
+		}},
 		{Name: "tempo_search_traceql_attrless", Api: "traces", Build: func(w Window) (*http.Request, int64, int64) {
 			return get("/api/search", "q", `{duration>1ms}`, "start", sec(w.FromNs), "end", sec(w.ToNs), "limit", "20"), 0, 0
 		}},
@@ -635,42 +722,45 @@ type ReqCase struct {
 	Cluster bool   `json:"cluster"`
 	Schema  string `json:"schema"` // new | old
 	Window
-	Gen  *GenTempo `json:"gen,omitempty"`  // tempo_search_gen: the generated parameters
-	PGen *GenProm  `json:"pgen,omitempty"` // prom_gen: the generated parameters
+	Gen  *GenTempo    `json:"gen,omitempty"`  // tempo_search_gen: the generated parameters
+	PGen *GenProm     `json:"pgen,omitempty"` // prom_gen: the generated parameters
+	Port *GenPortions `json:"port,omitempty"` // tempo_search_traceql_portions_rows: the scripted answers
 }
 
 type Line struct {
-	Kind     string    `json:"kind"` // req | stmt
-	ID       int       `json:"id"`
-	Req      int       `json:"req"`
-	Ep       string    `json:"ep"`
-	Api      string    `json:"api"`
-	Zone     int       `json:"zone"`
-	Cluster  bool      `json:"cluster"`
-	Schema   string    `json:"schema"`
-	Class    string    `json:"class"`
-	FromNs   int64     `json:"from_ns"`
-	ToNs     int64     `json:"to_ns"`
-	WidenLo  int64     `json:"widen_lo"`
-	WidenHi  int64     `json:"widen_hi"`
-	NoWindow bool      `json:"no_window"`
-	Status   int       `json:"status,omitempty"`
-	NStmts   int       `json:"nstmts,omitempty"`
-	URL      string    `json:"url,omitempty"`
-	Idx      int       `json:"idx,omitempty"`
-	Sel      int       `json:"sel,omitempty"` // which selector of a multi-window request the statement belongs to
-	SQL      string    `json:"sql,omitempty"`
-	ParseErr string    `json:"parse_err,omitempty"`
-	TreeCoq  string    `json:"tree_coq,omitempty"` // only for the first statement of every (endpoint, layout) pair
-	TreeSx   string    `json:"tree_sx,omitempty"`
-	Panic    string    `json:"panic,omitempty"`
-	Body     string    `json:"body,omitempty"` // start of the response body of a failed request
-	WinFrom  int64     `json:"win_from_ns"`    // the window of the generated case (before the API's granularity)
-	WinTo    int64     `json:"win_to_ns"`
-	Gen      *GenTempo `json:"gen,omitempty"`
-	PGen     *GenProm  `json:"pgen,omitempty"`
-	HintFrom int64     `json:"hint_from_ms,omitempty"` // Prometheus: hints.Start / hints.End of the statement's selector
-	HintTo   int64     `json:"hint_to_ms,omitempty"`
+	Kind     string       `json:"kind"` // req | stmt
+	ID       int          `json:"id"`
+	Req      int          `json:"req"`
+	Ep       string       `json:"ep"`
+	Api      string       `json:"api"`
+	Zone     int          `json:"zone"`
+	Cluster  bool         `json:"cluster"`
+	Schema   string       `json:"schema"`
+	Class    string       `json:"class"`
+	FromNs   int64        `json:"from_ns"`
+	ToNs     int64        `json:"to_ns"`
+	WidenLo  int64        `json:"widen_lo"`
+	WidenHi  int64        `json:"widen_hi"`
+	NoWindow bool         `json:"no_window"`
+	Status   int          `json:"status,omitempty"`
+	NStmts   int          `json:"nstmts,omitempty"`
+	URL      string       `json:"url,omitempty"`
+	Idx      int          `json:"idx,omitempty"`
+	Sel      int          `json:"sel,omitempty"` // which selector of a multi-window request the statement belongs to
+	SQL      string       `json:"sql,omitempty"`
+	ParseErr string       `json:"parse_err,omitempty"`
+	TreeCoq  string       `json:"tree_coq,omitempty"` // only for the first statement of every (endpoint, layout) pair
+	TreeSx   string       `json:"tree_sx,omitempty"`
+	Panic    string       `json:"panic,omitempty"`
+	Body     string       `json:"body,omitempty"` // start of the response body of a failed request
+	WinFrom  int64        `json:"win_from_ns"`    // the window of the generated case (before the API's granularity)
+	WinTo    int64        `json:"win_to_ns"`
+	Gen      *GenTempo    `json:"gen,omitempty"`
+	PGen     *GenProm     `json:"pgen,omitempty"`
+	HintFrom int64        `json:"hint_from_ms,omitempty"` // Prometheus: hints.Start / hints.End of the statement's selector
+	HintTo   int64        `json:"hint_to_ms,omitempty"`
+	Port     *GenPortions `json:"port,omitempty"`
+	Portion  int          `json:"portion,omitempty"` // portioned search with rows: which portion's search statement this is (1-based; 0 = none)
 }
 
 var routers = map[string]*mux.Router{}
@@ -734,6 +824,7 @@ func main() {
 	only := flag.String("only", "", "comma-separated endpoint names (default: all)")
 	tails := flag.Int("tails", 2, "how many live-tail requests to run (each waits for the one-second ticker)")
 	tempoGen := flag.Int("tempo-gen", 0, "additional generated /api/search requests (random tags, conditions, limit, durations)")
+	portGen := flag.Int("port-gen", 0, "additional portioned TraceQL searches whose portions return generated rows")
 	promGen := flag.Int("prom-gen", 0, "additional generated /api/v1/query_range requests (function, range / offset in milliseconds, step)")
 	fl := hx.ParseFlags()
 
@@ -831,7 +922,7 @@ func main() {
 							if len(onlySet) > 0 && !onlySet[ep.Name] {
 								continue
 							}
-							if ep.Name == "tempo_search_gen" || ep.Name == "prom_gen" {
+							if ep.Name == "tempo_search_gen" || ep.Name == "prom_gen" || ep.Name == "tempo_search_traceql_portions_rows" {
 								continue // only with generated parameters, below
 							}
 							if ep.WS {
@@ -858,6 +949,14 @@ func main() {
 			cases = append(cases, ReqCase{Ep: "tempo_search_gen", Zone: 0, Cluster: gr.Intn(2) == 0, Schema: "new",
 				Window: wins[gr.Intn(len(wins))], Gen: genTempo(gr)})
 		}
+		for i := 0; i < *portGen; i++ {
+			w := wins[gr.Intn(len(wins))]
+			if w.ToNs-w.FromNs < 20*second {
+				w = wins[0]
+			}
+			cases = append(cases, ReqCase{Ep: "tempo_search_traceql_portions_rows", Zone: 0, Cluster: gr.Intn(2) == 0, Schema: "new",
+				Window: w, Port: genPortions(gr, w)})
+		}
 		for i := 0; i < *promGen; i++ {
 			cases = append(cases, ReqCase{Ep: "prom_gen", Zone: 0, Cluster: gr.Intn(2) == 0, Schema: "new",
 				Window: wins[gr.Intn(len(wins))], PGen: genProm(gr)})
@@ -875,6 +974,13 @@ func main() {
 		curGen = c.Gen
 		if ep.Name == "tempo_search_gen" && curGen == nil {
 			curGen = &GenTempo{}
+		}
+		curPort = nil
+		if ep.Name == "tempo_search_traceql_portions_rows" {
+			curPort = c.Port
+			if curPort == nil {
+				curPort = &GenPortions{Complexity: 25000000, Limit: 20}
+			}
 		}
 		curPGen = c.PGen
 		if ep.Name == "prom_gen" {
@@ -913,7 +1019,7 @@ func main() {
 			wlo, whi = t1.Sub(t0).Nanoseconds()+2*second, t1.Sub(t0).Nanoseconds()+2*second
 		}
 		base := Line{Req: ri, Ep: ep.Name, Api: ep.Api, Zone: c.Zone, Cluster: c.Cluster, Schema: c.Schema, Class: w.Class,
-			FromNs: from, ToNs: to, WidenLo: wlo, WidenHi: whi, NoWindow: ep.NoWindow, WinFrom: w.FromNs, WinTo: w.ToNs, Gen: c.Gen, PGen: c.PGen}
+			FromNs: from, ToNs: to, WidenLo: wlo, WidenHi: whi, NoWindow: ep.NoWindow, WinFrom: w.FromNs, WinTo: w.ToNs, Gen: c.Gen, PGen: c.PGen, Port: c.Port}
 		if ep.PromSels != nil {
 			// the exact window of the (first) selector: [hints.Start, hints.End] in ms, both ends included
 			hs, he := promHint(ep, w, 0)
@@ -923,9 +1029,18 @@ func main() {
 		l.Kind, l.ID, l.Status, l.NStmts, l.URL, l.Panic, l.Body = "req", id, status, len(stmts), req.URL.RequestURI(), pnc, lastBody
 		id++
 		out.Put(l)
+		portion := 0
 		for k, s := range stmts {
 			l := base
 			l.Kind, l.ID, l.Idx, l.SQL = "stmt", id, k, s
+			l.Port = nil
+			if curPort != nil && strings.Contains(s, "traces_info") {
+				// portion `portion` (0-based) of a search whose portions return rows: what must still be read starts at needFrom
+				need := curPort.needFrom(from, portion)
+				portion++
+				l.Portion = portion
+				l.FromNs, l.WidenLo = need, need-from
+			}
 			if ep.Selector != nil {
 				l.Sel = ep.Selector(s)
 				if l.Sel >= len(ep.Offsets) {
